@@ -369,6 +369,10 @@ def enum_paths(stmt, decide, want, limit=512):
                 continue
             if kind == "IfStmt":
                 d = decide(n["cond"])
+                if d is None and n.get("constexpr") and isinstance(n["cond"], dict) and "cv" in strip(n["cond"]):
+                    d = bool(strip(n["cond"])["cv"])
+                elif d is None and isinstance(n["cond"], dict) and strip(n["cond"]).get("k") == "CXXBoolLiteralExpr":
+                    d = bool(strip(n["cond"]).get("v"))
                 branches = []
                 if d is None:
                     branches = [(True, guards + [(n["cond"], True)]), (False, guards + [(n["cond"], False)])]
@@ -387,13 +391,16 @@ def enum_paths(stmt, decide, want, limit=512):
                 out.append({"events": ev, "guards": guards, "returned": n})
                 return
             if kind in ("ContinueStmt", "BreakStmt"):
-                out.append({"events": events + [("stmt", n)], "guards": guards, "returned": None, "jump": kind})
+                out.append({"events": events, "guards": guards, "returned": None, "jump": kind})
                 return
             u = n
             while u.get("k") in ("ExprWithCleanups", "ParenExpr") and len(u.get("c") or []) == 1:
                 u = u["c"][0]
             if want(u):
                 events = events + [("stmt", u)]
+            if u.get("k") == "CallExpr" and u.get("noreturn"):
+                out.append({"events": events, "guards": guards, "returned": None, "noreturn": True})
+                return
             i += 1
     go([stmt], 0, [], [], [])
     return out
